@@ -212,7 +212,7 @@ def run_group(pid, groups, tier, only=None, known_ids=()):
                 res["harness_times"].append({"harness": h["harness"], "s": round(time.time() - ts, 1), "status": "failed" if failed else "ok"})
                 res["cmd"] = (res["cmd"] + " ; " if res["cmd"] else "") + "RUSTFLAGS='--cfg vx_replay' cargo test --offline --lib -p %s vx_kani_%s::%s" % (h["crate"], h["unit"], h["harness"])
                 if failed:
-                    res["failures"].append({"obligation": h["id"], "props": h["props"], "message": "bounded scenario fails on the real code: " + " ".join(l.strip() for l in out.split("\n") if "panicked at" in l or "assertion" in l or "(seed" in l)[:400],
+                    res["failures"].append({"obligation": h["id"], "props": h["props"], "message": "bounded scenario fails on the real code: " + _panic_text(out)[:500],
                                             "rendered": out[-3000:], "repo_loc": None, "clause": ob["text"], "harness": h, "replayed": True,
                                             "cex": [{"check": "scenario", "description": "bounded scenario %s" % h["harness"], "hex": "", "replay_output": out[-3000:], "replay_failed_on_real_code": True}]})
             for (crate, feats), bh in buckets.items():
@@ -293,6 +293,15 @@ def concrete_playback(sc, h, timeout=900):
         tests.append({"check": kind, "description": desc.strip(), "concrete_vals": vals, "hex": hexs})
     tests.sort(key=lambda t: t["check"] == "cover")
     return tests
+
+
+def _panic_text(out):
+    ls = out.split("\n")
+    keep = []
+    for i, l in enumerate(ls):
+        if "panicked at" in l:
+            keep += [x.strip() for x in ls[i:i + 4] if x.strip() and not x.startswith("note:")]
+    return " ".join(keep)
 
 
 def replay_on_real_code(sc, h, hexvals, timeout=1800, run_timeout=None):
